@@ -31,6 +31,9 @@ type InitRes struct {
 	Exists bool  `json:"exists"`
 	Phase  int   `json:"phase"`
 	Fins   []int `json:"fins"`
+	// Extra finalizers nobody touches, added one at a time before Fins (3 or 5 of them leave the stored finalizer
+	// slice with spare capacity, the shape in which a copy that shares its backing array can be written through).
+	Extra int `json:"extra,omitempty"`
 	Owner  int   `json:"owner"`
 }
 
@@ -72,6 +75,7 @@ func Gen(t *rapid.T) Plan {
 			Phase:  rapid.SampledFrom([]int{0, 0, 0, 0, 0, 0, 0, 1}).Draw(t, "phase"),
 			Fins:   rapid.SliceOfNDistinct(rapid.IntRange(0, 2), 0, 2, rapid.ID[int]).Draw(t, "fins"),
 			Owner:  rapid.SampledFrom([]int{0, 0, 1}).Draw(t, "owner"),
+			Extra:  rapid.SampledFrom([]int{0, 0, 0, 3, 3, 5}).Draw(t, "extrafins"),
 		})
 	}
 
@@ -178,6 +182,10 @@ func runBubble(p Plan) (v hk.Verdict) {
 
 		r := hres.New("n1", "TA", keyIDs[i], "init")
 		r.Metadata().SetPhase(resource.Phase(ir.Phase))
+
+		for x := 0; x < ir.Extra; x++ {
+			r.Metadata().Finalizers().Add(fmt.Sprintf("x%d", x))
+		}
 
 		for _, f := range ir.Fins {
 			r.Metadata().Finalizers().Add(hres.Finalizers[f])
